@@ -218,6 +218,27 @@ pub fn many_components(rng: &mut Rng) -> Abs {
     union_of(&parts, rng)
 }
 
+/// 66-140 arguments in small components that all have stable extensions (two-cycles, chains, four-cycles,
+/// isolated arguments, a two-cycle with a common victim): every semantics has many extensions, the statuses are
+/// not trivial, and the ids pass 64 and sometimes 128.  `union_of` keeps the parts in the order drawn or shuffles.
+pub fn stable_rich_over_64(rng: &mut Rng) -> Abs {
+    let target = rng.range(66, 140);
+    let mut parts: Vec<Abs> = Vec::new();
+    let mut total = 0;
+    while total < target {
+        let c = match rng.below(6) {
+            0 => singleton(),
+            1 | 2 => two_cycle(),
+            3 => chain(rng.range(2, 5)),
+            4 => ring(4),
+            _ => Abs::new(3, vec![(0, 1), (1, 0), (0, 2), (1, 2)]),
+        };
+        total += c.n;
+        parts.push(c);
+    }
+    union_of(&parts, rng)
+}
+
 /// Adds attacks until the graph is weakly connected.
 pub fn connect(g: &mut Abs, rng: &mut Rng) {
     loop {
